@@ -105,7 +105,22 @@ def random_batch(rnd, bid, n, big, tiny_only=False):
         pe = rnd.randint(max(ps + 1, 3 * len(p) // 4), len(p))
         ref = p[ps:pe]
         ops, read, j = [], [], 0
-        style = rnd.choice(["subs", "indels", "sv", "clean"]) if big or (k % 3 and not tiny_only) else "tiny"
+        style = rnd.choice(["subs", "indels", "sv", "clean", "balanced"]) if big or (k % 3 and not tiny_only) else "tiny"
+        if style == "balanced" and len(ref) >= 30:
+            # a deletion and, a few bases later, an insertion of the same size (or the other way round): read slice and
+            # path slice have EQUAL length, the gapless alignment is valid but far from optimal
+            m = rnd.randint(1, 3)
+            a = rnd.randint(3, len(ref) - 26)
+            gap = rnd.randint(5, 20)
+            ins = "".join(rnd.choice("ACGT") for _ in range(m))
+            if rnd.random() < 0.5:
+                rd = ref[:a] + ref[a + m : a + m + gap] + ins + ref[a + m + gap :]
+                ops = ["="] * a + ["D"] * m + ["="] * gap + ["I"] * m + ["="] * (len(ref) - a - m - gap)
+            else:
+                rd = ref[:a] + ins + ref[a : a + gap] + ref[a + gap + m :]
+                ops = ["="] * a + ["I"] * m + ["="] * gap + ["D"] * m + ["="] * (len(ref) - a - gap - m)
+            recs.append({"id": f"q{k}", "walk": walk, "ps": ps, "pe": pe, "read": rd, "ops": ops, "frag": rnd.choice([0, 0, 1])})
+            continue
         if style == "tiny":
             # unrelated short read and path slice with an arbitrary VALID input alignment (random monotone lattice path):
             # the optimal alignment may have no '=' column at all although the input CIGAR has some
